@@ -59,6 +59,9 @@ COMBOS = [
     ("ben29-6.diff", "sync.py", r"with contextlib\.suppress\(TypeError\):", "with contextlib.suppress(TypeError, ValueError):", ["C08"]),
     # `match` desugared to if/elif: a defect in a case is still seen
     ("ben29-3.diff", "time.py", r"case float\(\):", "case float() | int():", ["C01"]),
+    # a private generator drained by str.join is evaluated as the list builder it is: a defect inside it is still seen
+    ("ben32-4.diff", "util.py", r"if isinstance\(v, Sequence\) and len\(v\) > 1:", "if isinstance(v, Sequence):", ["C18"]),
+    ("ben31-5.diff", "chart.py", r'yield f"\{self\.sync_track\}"', 'yield f"{self.sync_track:>10d}"', ["C18"]),
 ]
 
 
